@@ -14,7 +14,8 @@ def cls_alphabet():
 def parse_spaces(tier, focus=()):
     """focus: driver names that get one more fragment of depth for this property."""
     U, D = spaces.U, spaces.D
-    sp = [('SPC<=3 raw', spaces.SPC, 3, ''), ('CLS<=3 raw', cls_alphabet(), 3, '')]
+    sp = [('SPC<=3 raw', spaces.SPC, 3, ''), ('CLS<=3 raw', cls_alphabet(), 3, ''),
+          ('ASG<=7 raw', spaces.ASG, 7, ''), ('MID<=5 blank', spaces.MID, 5, ' ')]
     if tier == 'quick':
         sp += [('U<=3 raw', U, 3, ''), ('U<=3 blank', U, 3, ' ')]
         for name in sorted(D):
